@@ -515,12 +515,17 @@ def install(ctx):
 _STYLE = {'n': 0, 'force': None}
 
 
-def _by_keyword():
-    """Every third driver call passes everything by keyword (replay forces both styles)."""
+def _style():
+    """0 = positional, 1 = everything by keyword (every third driver call), 2 = positional with the optional cut_off by
+    keyword; replay forces each style in turn."""
     if _STYLE['force'] is not None:
-        return bool(_STYLE['force'])
+        return _STYLE['force']
     _STYLE['n'] += 1
-    return _STYLE['n'] % 3 == 0
+    return 1 if _STYLE['n'] % 3 == 0 else (0 if _STYLE['n'] % 2 else 2)
+
+
+def _by_keyword():
+    return _style() == 1
 
 
 def _series_fn(eqsig, ctx, fname, x):
@@ -536,9 +541,9 @@ def _ncyc(eqsig, ctx, x, a_ref, b, cut_off):
     seq = isinstance(x, (list, tuple))
     try:
         f = eqsig.im.calc_n_cyc_array_w_power_law
-        k = _by_keyword()
-        r = f(values=x, a_ref=a_ref, b=b, cut_off=cut_off) if k else \
-            (f(x, a_ref, b, cut_off) if _STYLE['n'] % 2 else f(x, a_ref, b, cut_off=cut_off))
+        k = _style()
+        r = f(values=x, a_ref=a_ref, b=b, cut_off=cut_off) if k == 1 else \
+            (f(x, a_ref, b, cut_off) if k == 0 else f(x, a_ref, b, cut_off=cut_off))
         r = np.asarray(r, dtype=float)
     except Exception as e:
         # python sequences are "array_like" too: their own clauses, so that the evidence shows how often they were tried
@@ -641,10 +646,27 @@ def rel_shift(eqsig, ctx, fname, x, c):
               '%s changes under the constant shift %r: %s -> %s vs %s' % (fname, c, v0[:10].tolist(), r0[:10].tolist(), r1[:10].tolist()))
 
 
+def _in_range(ctx, name, series, b, div=1.0):
+    """Relations are judged only where the monitors judge: all powers (|p|/div)^(1/b) inside [1e-280, 1e280]."""
+    bs = _bs(b)[0]
+    for v in series:
+        dom = _domain(v)
+        if dom is None or bs is None or not _range_ok(dom[1], div, bs):
+            ctx.observe('%s: constant / out-of-domain series or powers outside [1e-280,1e280] (not judged)' % name)
+            return False
+    return True
+
+
 def rel_dtype(eqsig, ctx, fname, xi, params):
     """f(integer container) == f(float64 array of the same numbers)."""
     xf = np.asarray(xi, dtype=float)
     W = lambda **kw: _wit('rel:dtype', fname=fname, xi=xi, params=params, **kw)
+    if fname == NCYC and not _in_range(ctx, 'dtype', [xf], params[1], params[0]):
+        return
+    if fname == AMP and not _in_range(ctx, 'dtype', [xf], params[1]):
+        return
+    if fname in (GM, COMB) and not _in_range(ctx, 'dtype', [xf, np.asarray(params[0], dtype=float)], params[2]):
+        return
     pf = list(params)
     if fname in (GM, COMB):
         pf[0] = np.asarray(pf[0], dtype=float)
@@ -767,6 +789,8 @@ def rel_ncyc_scale(eqsig, ctx, x, a_ref, b, cut_off, alpha):
 
 def rel_identical(eqsig, ctx, x, n_cyc, b):
     """combined(x, x) == 2^b * amp(x);  gm(x, x) == amp(x)."""
+    if not _in_range(ctx, 'identical', [x], b):
+        return
     A1 = _amp(eqsig, ctx, x, n_cyc, b)
     if A1 is None:
         return
@@ -788,6 +812,8 @@ def rel_identical(eqsig, ctx, x, n_cyc, b):
 
 def rel_two(eqsig, ctx, x, y, n_cyc, b):
     """gm(x, y) == sqrt(amp(x)*amp(y)) over the recorded executions; combined(x, y) is judged by its monitor."""
+    if not _in_range(ctx, 'two-component', [x, y], b):
+        return
     A0 = _amp(eqsig, ctx, x, n_cyc, b)
     A1 = _amp(eqsig, ctx, y, n_cyc, b)
     G = _gm(eqsig, ctx, x, y, n_cyc, b)
@@ -805,6 +831,8 @@ def rel_two(eqsig, ctx, x, y, n_cyc, b):
 
 def rel_bcols(eqsig, ctx, x, a_ref, n_cyc, bvec, cut_off, j):
     """Column j of the array-b results == the scalar-b results for bvec[j]."""
+    if not (_in_range(ctx, 'array-b', [x], bvec) and _in_range(ctx, 'array-b', [x], bvec, a_ref)):
+        return
     n = len(x)
     bj = float(bvec[j])
     Nv = _ncyc(eqsig, ctx, x, a_ref, bvec, cut_off)
@@ -930,7 +958,11 @@ def rel_form(eqsig, ctx, label, x, y, a_rel, b, cut_off, n_cyc):
         return
     n = len(bx)
     a_ref = a_rel * float(np.max(np.abs(bx)))
+    amp_ok = _in_range(ctx, 'form', [bx, by], b)
+    ncyc_ok = _in_range(ctx, 'form', [bx], b, a_ref)
     for fname in ALL6:
+        if (fname == NCYC and not ncyc_ok) or (fname in (AMP, GM, COMB) and not amp_ok):
+            continue
         pf = {DELTA: [], PSEUDO: [], NCYC: [a_ref, b, cut_off], AMP: [n_cyc, b], GM: [fy, n_cyc, b], COMB: [fy, n_cyc, b]}[fname]
         pb = [by] + pf[1:] if fname in (GM, COMB) else pf
         rf = _invoke(eqsig, ctx, fname, fx, pf)
@@ -955,6 +987,12 @@ def rel_form(eqsig, ctx, label, x, y, a_rel, b, cut_off, n_cyc):
 def rel_b2b(eqsig, ctx, fname, x, px, y, py):
     """Two different inputs of one shape back to back: the first result, still held, must not change when the second call
     runs (no shared scratch buffer), the results must not share memory, and repeating the first call reproduces it."""
+    if fname == NCYC and not (_in_range(ctx, 'back-to-back', [x], px[1], px[0]) and _in_range(ctx, 'back-to-back', [y], py[1], py[0])):
+        return
+    if fname == AMP and not _in_range(ctx, 'back-to-back', [x, y], px[1]):
+        return
+    if fname in (GM, COMB) and not _in_range(ctx, 'back-to-back', [x, y], px[2]):
+        return
     r1 = _invoke(eqsig, ctx, fname, x, px)
     if r1 is None:
         return
@@ -982,6 +1020,10 @@ def rel_optform(eqsig, ctx, x, y, a_ref, b, b2, cut_off, n_cyc):
     must give the result of the plain python floats / of the ndarray b."""
     W = lambda **kw: _wit('rel:optform', x=x, y=y, a_ref=a_ref, b=b, b2=b2, cut_off=cut_off, n_cyc=n_cyc, **kw)
     bv = np.array([b, b2])
+    ai = max(1, int(round(a_ref))) if a_ref < 1e15 else None
+    if not (_in_range(ctx, 'option-form', [x, y], [b, b2, 1.0]) and _in_range(ctx, 'option-form', [x], [b, b2, 1.0], a_ref)
+            and (ai is None or _in_range(ctx, 'option-form', [x], [1.0], float(ai)))):
+        return
     N = _ncyc(eqsig, ctx, x, a_ref, b, cut_off)
     A = _amp(eqsig, ctx, x, n_cyc, b)
     Cb = _comb(eqsig, ctx, x, y, n_cyc, b)
@@ -1003,7 +1045,6 @@ def rel_optform(eqsig, ctx, x, y, a_ref, b, b2, cut_off, n_cyc):
     _same(ctx, _gm(eqsig, ctx, x, y, n_cyc, [b, b2]), Gv, 'gm(b list)', W)
     # python ints for integral option values; cut_off = 0 and b = 1 are the boundary values of the quantifier
     ni = max(1, int(round(n_cyc)))
-    ai = max(1, int(round(a_ref))) if a_ref < 1e15 else None
     _same(ctx, _amp(eqsig, ctx, x, ni, 1), _amp(eqsig, ctx, x, float(ni), 1.0), 'amp(int n_cyc, int b=1)', W)
     _same(ctx, _comb(eqsig, ctx, x, y, ni, 1), _comb(eqsig, ctx, x, y, float(ni), 1.0), 'combined(int n_cyc, int b=1)', W)
     if ai is not None:
@@ -1393,7 +1434,7 @@ def replay(w):
     ctx = core.Ctx(PROP_ID, 'quick', 0, 0, 1)
     install(ctx)
     fn = w.get('fn')
-    for style in (0, 1):            # positional, then everything by keyword
+    for style in (0, 1, 2):         # positional, everything by keyword, optional argument by keyword
         _STYLE['force'] = style
         if fn in RELATIONS:
             RELATIONS[fn](eqsig, ctx, w)
